@@ -74,7 +74,10 @@ def fixed_designs():
            "insts": [{"name": "m0", "kind": "single", "of": ["mod", "M0"], "tag": None, "conns": {"k": S("k"), "mb": ["bun", "tb"]}},
                      {"name": "m1", "kind": "single", "of": ["mod", "M1"], "tag": None, "conns": {"k": ["pref", "lb", "p"]}},
                      {"name": "lb", "kind": "single", "of": ["mod", "LB"], "tag": None, "conns": {"q": ["bun", "t3"]}},
-                     {"name": "la", "kind": "single", "of": ["mod", "LA"], "tag": None, "conns": {"a": ["bref", "t3", ["hi", "y"]], "b": S("k"), "bp": ["bref", "t3", ["lo"]]}}]}
+                     {"name": "la", "kind": "single", "of": ["mod", "LA"], "tag": None, "conns": {"a": ["bref", "t3", ["hi", "y"]], "b": S("k"), "bp": ["bref", "t3", ["lo"]]}},
+                     # bundle-valued ports left open
+                     {"name": "lbo", "kind": "single", "of": ["mod", "LB"], "tag": None, "conns": {"p": S("k"), "q": ["nc", 71, None]}},
+                     {"name": "lao", "kind": "single", "of": ["mod", "LA"], "tag": None, "conns": {"a": ["nc", 72, None], "b": ["nc", 73, "open_b"], "bp": ["nc", 74, None]}}]}
     yield "fixed-5", {"bundles": B, "modules": [leafA, leafB, mid0, mid1, top], "top": "TT"}
     # a chain of 4 with a bundle port passed through every level
     mods = []
@@ -90,7 +93,8 @@ def fixed_designs():
         prev = f"C{k}"
     topc = {"name": "CT", "style": "proc", "ports": [], "bports": [], "sigs": [], "buns": [["b", "B1"]],
             "insts": [{"name": "t0", "kind": "single", "of": ["mod", "C3"], "tag": None, "conns": {"bp": ["bun", "b"]}},
-                      {"name": "t1", "kind": "single", "of": ["mod", "C1"], "tag": None, "conns": {"bp": ["anon", {"x": ["bref", "b", ["x"]], "y": ["bref", "b", ["y"]]}]}}]}
+                      {"name": "t1", "kind": "single", "of": ["mod", "C1"], "tag": None, "conns": {"bp": ["anon", {"x": ["bref", "b", ["x"]], "y": ["bref", "b", ["y"]]}]}},
+                      {"name": "t2", "kind": "single", "of": ["mod", "C2"], "tag": None, "conns": {"bp": ["nc", 75, None]}}]}
     yield "chain-5", {"bundles": B, "modules": mods + [topc], "top": "CT"}
 
 
@@ -123,6 +127,28 @@ def do_call(sess, kind, names):
     import hdl21 as h
 
     ms = sess.mods(names)
+    if kind == "samename":
+        # ANOTHER design of the process holds modules with the same NAMES (and same-named bundle ports of another bundle type)
+        ob = h.Bundle(name=f"OtherB_{next(build._counter)}")
+        ob.add(h.Signal(width=2), name="u")
+        ob.add(h.Signal(), name="v")
+        fp = h.Module(name=f"SameNameParent_{next(build._counter)}")
+        for k, m in enumerate(ms):
+            sp, bp = refsem.iface(sess.design, ["mod", names[k]])
+            f = h.Module(name=m.name)
+            conns = {}
+            for p, w in sp.items():
+                f.add(h.Port(width=w), name=p)
+                conns[p] = fp.add(h.Signal(width=w), name=f"s{k}_{p}")
+            for p in bp:
+                f.add(h.BundleInstance(of=ob, port=True), name=p)
+                conns[p] = fp.add(h.BundleInstance(of=ob), name=f"b{k}_{p}")
+            fp.add(h.Instance(of=f)(**conns), name=f"u{k}")
+        try:
+            h.elaborate(fp)
+        except Exception:
+            pass
+        return None
     if kind == "badparent":
         # ANOTHER parent of these modules, which fails late in elaboration (a mis-sized array connection is only found after
         # everything below it had its bundles flattened); the design itself is not part of it
@@ -319,7 +345,7 @@ def histories_for(design, rng, exhaustive: bool, n_sampled: int):
         perm = rng.sample(names, k)
         h_ = []
         for n in perm:
-            kind = rng.choice(["elab", "proto", "netlist", "badparent"])
+            kind = rng.choice(["elab", "proto", "netlist", "badparent", "samename"])
             if rng.random() < 0.25 and len(perm) > 1:
                 grp = tuple(rng.sample(perm, rng.randint(2, len(perm))))
                 h_.append((kind, grp))
